@@ -892,6 +892,14 @@ impl Session {
             buffer.len()
         );
 
+        // The pending-frame buffer lock is taken before the buffering decision and held
+        // until the transport write is done: a concurrent writer can then neither overtake
+        // buffered frames that are being flushed (the settings frame must stay first) nor
+        // append to the buffer after it has been flushed.
+        #[cfg(feature = "verif")]
+        crate::verif::sched_point("wf_before_buffer_append").await;
+        let mut buf = self.buffer.lock().await;
+
         // Check if buffering
         if self.buffering.load(std::sync::atomic::Ordering::Relaxed) {
             tracing::trace!(
@@ -899,9 +907,6 @@ impl Session {
                 frame_cmd,
                 frame_stream_id
             );
-            #[cfg(feature = "verif")]
-            crate::verif::sched_point("wf_before_buffer_append").await;
-            let mut buf = self.buffer.lock().await;
             let old_len = buf.len();
             buf.extend_from_slice(&buffer);
             tracing::debug!(
@@ -914,7 +919,6 @@ impl Session {
 
         // Flush buffer if any
         {
-            let mut buf = self.buffer.lock().await;
             if !buf.is_empty() {
                 let buffered_len = buf.len();
                 tracing::debug!(
@@ -955,7 +959,9 @@ impl Session {
         }
 
         // Write with padding if enabled
-        self.write_with_padding(buffer).await
+        let result = self.write_with_padding(buffer).await;
+        drop(buf);
+        result
     }
 
     /// Write buffer to connection with padding applied
